@@ -64,4 +64,26 @@ def run (t : List String) : String :=
       (match final with | .ok _ => "" | _ => " finish=err")
   | _ => "bad-op"
 
+/-- `ppdup <batch> <k> <m> <j>`: the original takes k items, `duplicate()`, the duplicate takes m and finishes, the
+    original takes j more and finishes (`Pub.duplicate`; c03_duplicate_delivers_only_its_own_partial) -/
+def runDup (t : List String) : String :=
+  match t with
+  | [batch, k, m, j] =>
+    let size : Option Nat := if batch = "-" then none else some (nat! ((batch.splitOn ":").headD "0"))
+    let lim := Selium.Gen.Frame.maxMessageSize
+    let it : Nat → Nat → List (Bool × Bytes) := fun lo n => (List.range n).map fun i => (false, digits (lo + i) ++ [124])
+    let a1 := ((Pub.ofConfig size).sendEach bytesCodec noCompression lim (it 0 (nat! k))).1
+    let b1 := (a1.duplicate.sendEach bytesCodec noCompression lim (it 0 (nat! m))).1
+    let a2 := (a1.sendEach bytesCodec noCompression lim (it (nat! k) (nat! j))).1
+    let outs : Pub → List (Res Bytes) := fun p =>
+      match p.finish noCompression lim with
+      | .ok pf => subscriberOutputs bytesCodec noCompression pf.wire
+      | _ => subscriberOutputs bytesCodec noCompression p.dropBatch.flush.wire
+    let idx : List (Res Bytes) → String := fun o =>
+      let l := o.filterMap fun r => match r with | .ok b => some (indexOf b) | _ => none
+      if l.isEmpty then "-" else ",".intercalate l
+    let errs := ((outs a2 ++ outs b1).filter fun r => !r.isOk).length
+    s!"a={idx (outs a2)} b={idx (outs b1)} errs={errs}"
+  | _ => "bad-op"
+
 end Driver.PubClient
